@@ -626,7 +626,9 @@ def check_recursion(ctx, f):
                 n = c
                 while n is not None and n is not f.node:
                     if isinstance(n, ast.If):
-                        for sub in ast.walk(n.test):
+                        # the bound must be entailed by the test being true: the test itself or a conjunct of it
+                        conj = n.test.values if isinstance(n.test, ast.BoolOp) and isinstance(n.test.op, ast.And) else [n.test]
+                        for sub in conj:
                             if isinstance(sub, ast.Compare) and isinstance(sub.left, ast.Name) and sub.left.id == p \
                                     and len(sub.ops) == 1 and isinstance(sub.ops[0], ast.Lt):
                                 ok = True
